@@ -120,26 +120,27 @@ Theorem calc_blockdep_zero :
 Proof. exact calc_blockdep_zero_cases. Qed.
 
 (* get_address_ranges (the per-tile bounding ranges handed to the conflict test and used by
-   calc_blockdep to classify overlap) over-approximates the feature map -- PARTIAL: only when tile 3
-   is not in use without tile 2 ... *)
-Theorem footprint_overapprox_partial :
+   calc_blockdep to classify overlap) over-approximates the feature map: every element, in whichever
+   of the four tiles, lies in a reported range (non-negative strides; NHCWB16: stride_c >= 16 elements).
+   Hence the conflict relation get_wait_dependency works with is a superset of the byte-level one. *)
+Theorem footprint_overapprox :
   forall fm y x c,
     strides_ok fm ->
-    (fm_w fm > fm_w0 fm -> fm_h fm > fm_h1 fm -> fm_h fm > fm_h0 fm) ->
     0 <= y < fm_h fm -> 0 <= x < fm_w fm -> 0 <= c < fm_d fm ->
     covered_by fm y x c (get_address_ranges fm).
-Proof. exact footprint_overapprox_partial_lemma. Qed.
+Proof. exact footprint_overapprox_lemma. Qed.
 
-(* ... and REFUTED without that hypothesis: a feature map using tiles 0, 1 and 3 has elements no
-   reported range contains (witness replayed on the real get_address_ranges by tools/checks/c04.py;
-   through the public API it yields a stream with an unseparated DMA/kernel hazard) *)
-Theorem footprint_overapprox_refuted :
+(* history: the code before repo commit de3dc4c (model get_address_ranges_old: tile 3 reported only
+   when tile 2 is in use) was refuted by a feature map using tiles 0, 1 and 3; the repaired code
+   reports the missing range *)
+Theorem footprint_overapprox_old_code_refuted :
   exists fm y x c,
     strides_ok fm /\ 0 <= y < fm_h fm /\ 0 <= x < fm_w fm /\ 0 <= c < fm_d fm /\
     get_address fm (get_strides fm) y x c = 8192 /\
-    get_address_ranges fm = [Some (1, 0, 960); Some (1, 4096, 448); None; None] /\
-    ~ covered_by fm y x c (get_address_ranges fm).
-Proof. exact footprint_overapprox_refuted_lemma. Qed.
+    get_address_ranges_old fm = [Some (1, 0, 960); Some (1, 4096, 448); None; None] /\
+    ~ covered_by fm y x c (get_address_ranges_old fm) /\
+    get_address_ranges fm = [Some (1, 0, 960); Some (1, 4096, 448); None; Some (1, 8192, 448)].
+Proof. exact footprint_overapprox_old_code_refuted_lemma. Qed.
 
 (* device T: the coordinate intersection test of the model is the one regenerated from
    register_command_stream_util.coords_intersect on every run (a change of the source breaks this) *)
@@ -195,7 +196,8 @@ Print Assumptions blockdep_sound.
 Print Assumptions blockdep_sound_concrete.
 Print Assumptions calc_blockdep_result.
 Print Assumptions calc_blockdep_zero.
-Print Assumptions footprint_overapprox_partial.
-Print Assumptions footprint_overapprox_refuted.
+Print Assumptions footprint_overapprox.
+Print Assumptions footprint_overapprox_old_code_refuted.
+Print Assumptions gen_coords_intersect_agrees.
 Print Assumptions check_hazards_sound.
 Print Assumptions queue_simulation_sound.
